@@ -8,12 +8,15 @@ def pairs():
       "free_block_local": P("free_block_local", "h_free_block_local", "mi_free_block_local", ["_mi_page_retire", "_mi_page_unfull"]),
       "unfull": dict(name="unfull", entry="h_unfull", harness=HO, enforce="_mi_page_unfull", replace=["mi_page_queue_enqueue_from_full/c_enqueue_from_rec"], label="P", functions=["_mi_page_unfull", "mi_heap_page_queue_of", "mi_page_bin"], timeout=300, unwind=14),
       "to_full": dict(name="to_full", entry="h_to_full", harness=HO, enforce="mi_page_to_full", replace=["mi_page_queue_enqueue_from/c_enqueue_from_rec", "_mi_page_free_collect/c_page_free_collect_rec"], label="P", functions=["mi_page_to_full"], timeout=300, unwind=14),
-      "malloc_generic": dict(name="malloc_generic", entry="h_malloc_generic", harness=HO, enforce="_mi_malloc_generic", label="P", functions=["_mi_malloc_generic"], timeout=3000, unwind=24, objbits=12, tier="thorough", mem_gb=20,
-                         replace=["mi_find_page/c_find_page_rec", "mi_heap_collect", "_mi_heap_delayed_free_partial/c_delayed_free_partial_rec", "_mi_deferred_free", "_mi_page_malloc_zero", "_mi_page_malloc",
-                                  "mi_page_to_full/c_page_to_full_rec", "_mi_memzero_aligned", "mi_option_get_clamp", "mi_option_get"]),
       "set_in_full": P("set_in_full", "h_set_in_full", "mi_page_set_in_full", []),
       "set_has_aligned": P("set_has_aligned", "h_set_has_aligned", "mi_page_set_has_aligned", []),
         }
+def malloc_generic_pairs():
+    # the page search is an assumed body (stubs/bodies/find_page.c), see vc.py stub_bodies
+    return [dict(name="malloc_generic", entry="h_malloc_generic", harness="harness/malloc_generic.c", enforce="_mi_malloc_generic", label="P", functions=["_mi_malloc_generic"],
+                 timeout=900, unwind=24, objbits=12, mem_gb=12, stub_bodies={"src": "stubs/bodies/find_page.c", "remove": ["mi_find_page"]},
+                 replace=["mi_heap_collect", "_mi_heap_delayed_free_partial/c_delayed_free_partial_rec", "_mi_deferred_free", "_mi_page_malloc_zero", "_mi_page_malloc",
+                          "mi_page_to_full/c_page_to_full_rec", "_mi_memzero_aligned", "mi_option_get_clamp", "mi_option_get"])]
 def extend_pairs():
     out = []
     cl = common.used_classes()
